@@ -176,4 +176,105 @@ theorem BitCount_eq_model (v : Bytes) (a b : Int) (hv : v.length < 2 ^ 58) (ha :
           exact slice_count v s e1 (by omega) hv
   exact key _ _ (by split <;> omega) (by split <;> omega)
 
+/-! ### BitCountByBit -/
+
+def BitCountByBit (v : Bytes) (start : Int) (end_ : Int) : GoLib.M Int := do
+  let mut start := start
+  let mut end_ := end_
+  let mut count : Int := 0
+  if (decide (start < 0)) then
+    start := 0
+  let mut bl : Int := (GoLib.wrap .i64 ((GoLib.len v) * 8))
+  if (decide (end_ ≤ 0)) then
+    end_ := bl
+  if (decide (end_ > (GoLib.wrap .i64 ((GoLib.len v) * 8)))) then
+    end_ := bl
+  for i in GoLib.irange start end_ do
+    if ((← getBit v i) == 1) then
+      count := (GoLib.wrap .i64 (count + 1))
+  return count
+
+def bbBody (v : Bytes) (i r : Int) : M (ForInStep Int) := do
+  let g ← getBit v i
+  if (g == 1) = true then pure (ForInStep.yield (wrap IT.i64 (r + 1))) else pure (ForInStep.yield r)
+
+/-- the counting loop of BitCountByBit alone -/
+def countRange (v : Bytes) (s e : Int) : GoLib.M Int := do
+  let mut count : Int := 0
+  for i in GoLib.irange s e do
+    if ((← getBit v i) == 1) then
+      count := (GoLib.wrap .i64 (count + 1))
+  return count
+
+theorem BitCountByBit_struct (v : Bytes) (a b : Int) : BitCountByBit v a b =
+    (let s := if a < 0 then 0 else a
+     let bl := wrap .i64 (len v * 8)
+     let e0 := if b ≤ 0 then bl else b
+     let e1 := if e0 > bl then bl else e0
+     countRange v s e1) := by
+  unfold BitCountByBit countRange
+  simp only [decide_eq_true_eq]
+  repeat' split
+  all_goals first | rfl | omega | simp_all
+
+theorem range_loop (v : Bytes) (hv : v.length < 2 ^ 58) : ∀ (l : List Int) (count : Int), 0 ≤ count → count + l.length < 2 ^ 62 →
+    (∀ i ∈ l, 0 ≤ i ∧ i < 2 ^ 62) →
+    forIn (m := M) l count (bbBody v) = .ok (count + ((l.filter (fun i => DsStr.getBit (some v) i == 1)).length : Int))
+  | [], count, _, _, _ => by simp [pure, Except.pure]
+  | i :: rest, count, h0, hb, hr => by
+    simp only [List.length_cons] at hb
+    have hi := hr i (by simp)
+    have hrest : ∀ j ∈ rest, 0 ≤ j ∧ j < 2 ^ 62 := fun j hj => hr j (by simp [hj])
+    have hg := getBit_eq_model v i (by omega) (inInt64_iff.mpr (by omega))
+    rw [List.forIn_cons]
+    by_cases hbit : (DsStr.getBit (some v) i == 1) = true
+    · have hw : wrap IT.i64 (count + 1) = count + 1 := wrap_i64_id (by omega)
+      have hstep : bbBody v i count = .ok (ForInStep.yield (count + 1)) := by
+        unfold bbBody; simp only [hg, bind, Except.bind, hbit, if_true, hw]; rfl
+      rw [hstep]
+      simp only [bind, Except.bind]
+      have hf : (fun i => DsStr.getBit (some v) i == 1) i = true := hbit
+      rw [range_loop v hv rest (count + 1) (by omega) (by omega) hrest]
+      simp only [List.filter_cons, hbit, if_true, List.length_cons]
+      congr 1; omega
+    · have hstep : bbBody v i count = .ok (ForInStep.yield count) := by
+        unfold bbBody; simp only [hg, bind, Except.bind, hbit, if_false, Bool.false_eq_true]; rfl
+      rw [hstep]
+      simp only [bind, Except.bind]
+      have hf : ¬ ((fun i => DsStr.getBit (some v) i == 1) i = true) := hbit
+      rw [range_loop v hv rest count h0 (by omega) hrest]
+      simp only [List.filter_cons, hbit, if_false, Bool.false_eq_true]
+
+theorem mem_irange {s e i : Int} (h : i ∈ irange s e) : s ≤ i ∧ i < e := by
+  simp only [irange, List.mem_map, List.mem_range] at h
+  obtain ⟨k, hk, rfl⟩ := h
+  omega
+
+theorem countRange_eq (v : Bytes) (hv : v.length < 2 ^ 58) (s e : Int) (hs : 0 ≤ s) (he : e ≤ 8 * (v.length : Int)) :
+    countRange v s e = .ok ((((List.range (e - s).toNat).filter fun (k : Nat) => DsStr.getBit (some v) (s + (k : Int)) == 1).length : Nat) : Int) := by
+  have hl := range_loop v hv (irange s e) 0 (by omega) (by
+      have : (irange s e).length = (e - s).toNat := by simp [irange]
+      rw [this]; omega)
+    (fun i hi => by have := mem_irange hi; omega)
+  have key : countRange v s e = (forIn (irange s e) 0 (bbBody v) >>= fun r => pure r) := rfl
+  rw [key, hl]
+  simp only [bind, Except.bind, pure, Except.pure, irange, List.filter_map, List.length_map, Int.zero_add]
+  rfl
+
+theorem BitCountByBit_eq_model (v : Bytes) (a b : Int) (hv : v.length < 2 ^ 58) :
+    BitCountByBit v a b = .ok (DsStr.bitCountByBit (some v) a b) := by
+  have hbl : wrap .i64 ((v.length : Int) * 8) = (v.length : Int) * 8 := wrap_i64_id (by omega)
+  rw [BitCountByBit_struct]
+  simp only [len_eq, hbl, DsStr.bitCountByBit, DsStr.bytes, Option.getD_some]
+  have key : ∀ (s e : Int), 0 ≤ s → e ≤ 8 * (v.length : Int) →
+      countRange v s e = (Except.ok (if s ≥ e then 0 else
+        ((((List.range (e - s).toNat).filter fun (k : Nat) => DsStr.getBit (some v) (s + (k : Int)) == 1).length : Nat) : Int)) : M Int) := by
+    intro s e hs he
+    rw [countRange_eq v hv s e hs he]
+    by_cases c : s ≥ e
+    · have : (e - s).toNat = 0 := by omega
+      simp [c, this]
+    · simp [c]
+  exact key _ _ (by split <;> omega) (by split <;> split <;> omega)
+
 end NodisVerif.StrNF
